@@ -1,15 +1,25 @@
 """C20 — every file lasio opens is closed again, whatever fails and wherever.
 
-Tie = dynamic fault enumeration on the implementation.  `builtins.open` / `io.open` are
-wrapped (in this process only, and only while a scenario runs): every file lasio opens is a
+Tie = dynamic fault enumeration on the implementation.  `builtins.open` / `io.open` / `io.FileIO`
+are wrapped (in this process only, and only while a scenario runs): every file lasio opens is a
 proxy that records open/closed state, counts the low-level operations (open, read, readline,
 __next__, seek, tell, write, flush, close, ...) and raises OSError at the k-th of them, for
 EVERY k up to the operation count of the clean run, for each call kind and each input-induced
-failure class.  After every call — returned or raised, the exception object kept alive —
+failure class.  An open is lasio's when the nearest frame that is not a standard-library wrapper
+(codecs, pathlib, os.fdopen, gzip, zipfile, tempfile, ...) is a lasio source line: the name lasio
+reached the opener by does not matter.  Independently of the wrappers, an audit hook ("open" event:
+every OS-level open, whatever API) records the opens lasio makes without going through a wrapped
+constructor, and the process' descriptor table (/proc/self/fd) is compared before and after every
+call.  After every call — returned or raised, the exception object kept alive —
 
-  oracle 1: no handle opened by lasio is still open;
+  oracle 1: no handle opened by lasio is still open (proxies), and no descriptor that appeared during
+            the call and points at a scenario file / a path lasio opened is still there;
   oracle 2: file objects supplied by the caller to write()/to_csv() are still open;
-  oracle 3: nothing reachable from the LASFile object is an open handle.
+  oracle 3: nothing reachable from the LASFile object (for lasio.read / LASFile(path): the returned
+            object, or the one under construction found in the traceback) is an open handle.
+
+An open the audit hook attributes to lasio that did not come through a wrapped constructor cannot be
+fault-injected: it is reported as a broken tie (mismatch), never ignored.
 
 Model side (evaluated inside Coq on the regenerated skeletons, Gen/Skel.v):
   * `leak_free` / `caller_handles_untouched` of each skeleton vs what was observed for the
@@ -20,9 +30,11 @@ Model side (evaluated inside Coq on the regenerated skeletons, Gen/Skel.v):
     the skeleton has a run with exactly these events and that outcome (`accepts`, an executable
     acceptor proved sound in Proofs/IOSkelTraceProofs.v) — what the implementation was seen to do is
     among the behaviours the theorems quantify over;
-  * every `open` observed at run time happened at a source line the translator turned into an
-    `Open`/`With` (Skel.open_sites), and no other module reachable from las.py opens files.
+  * every open observed at run time (wrapped or seen by the audit hook only) happened at a source line the
+    translator turned into an `Open`/`With` (Skel.open_sites), and no source file of the lasio package calls
+    an opener outside the translated functions (Skel.other_open_sites = []).
 """
+import _io
 import builtins
 import errno
 import gc
@@ -48,19 +60,40 @@ THEOREMS = ["C20_sound", "C20_sound_general", "C20_ret_sound", "C20_caller_untou
             "C20_api_returns_nothing", "C20_caller_untouched_write_exec", "C20_caller_untouched_to_csv_exec",
             "C20_convert_version", "C20_convert_version_exec"]
 ASSUMPTIONS = [
-    "translator completeness: every statement of the six functions that can raise is rendered as MayRaise/Open/Close "
+    "translator completeness: every statement of the translated functions that can raise is rendered as MayRaise/Open/Close "
     "(all statements other than assignments of names/constants are); NameError/MemoryError/KeyboardInterrupt between two "
     "pure statements are not modelled",
     "close() closes: a file object's close() leaves it closed even when close() itself raises (true of CPython io objects)",
-    "functions called from the six translated ones (writer.write, csv.writer, reader.* parsers, numpy) open no files "
-    "themselves: checked syntactically for the lasio modules reachable from las.py (Skel.other_open_sites = []), and "
-    "dynamically (every observed open comes from a translated open site)",
+    "openers are recognised by NAME (translators/skeleton.py OPENERS: open, io.open, x.open, FileIO, fdopen, TextIOWrapper, "
+    "Buffered*, *TemporaryFile, mkstemp, GzipFile/BZ2File/LZMAFile/ZipFile/TarFile, popen/Popen, pipe/dup/socket/mmap ...), in "
+    "every source file of the lasio package (Skel.other_open_sites = [] scans lasio/**/*.py, aliases `f = open`, "
+    "`from io import open as f`, getattr(io, \"open\") included).  A variable that is closed / used as the handle and is "
+    "bound from anything the translator cannot classify as not-a-handle (constant, untracked name with only such bindings, "
+    "StringIO/BytesIO, a lasio function that calls nothing but isinstance/str/absolute) makes the translation fail "
+    "(SkelError).  What remains assumed: a callee that is neither a lasio function nor on the denylist opens no file whose "
+    "handle it leaves to lasio in a variable that is never closed; dynamically this is covered by the audit hook and the "
+    "descriptor table for the scenarios that are run",
+    "functions called from the translated ones are either translated themselves and proved leak-free (lasio.read -> "
+    "LASFile.__init__ -> LASFile.read; convert_version -> lasio.read, LASFile.write) or open no files (writer.write, "
+    "csv.writer, reader.* parsers, numpy): checked syntactically for EVERY module of the package and dynamically (every "
+    "observed open comes from a translated open site)",
     "the guards `isinstance(file_ref, str)`, `if opened_file:` and `hasattr(x, \"close\")` behave as the translator's "
-    "idiom table says (flag set only next to the open and never reset: checked syntactically)",
+    "idiom table says: `Guarded x b` may skip b only in states where x holds no open file lasio opened; for the flag "
+    "idiom this is checked syntactically (flag = False only at the top of the function before any open; flag = True only "
+    "immediately after the open, or immediately before it and then not inside a try body; every open of the guarded "
+    "variable has its flag = True; the flag is read only as the test of `if flag: x.close()`; no nonlocal/global, no "
+    "nested definition touching open/close); for hasattr(x, \"close\") it rests on every file object having a close "
+    "attribute",
+    "a helper's returned handle becomes the caller's at the Call node: sound because the translator requires the "
+    "unpacking target to have exactly the arity of the helper's return tuple and only plain names before the handle's "
+    "position (nothing can raise between the helper's `return` and the store into the caller's variable)",
+    "read() closes a file object handed to it (C20_ex_read_closes_caller_object): oracle 2 applies to write()/to_csv() only, "
+    "as in the property's wording",
     "handles opened by libraries on lasio's behalf (urllib.urlopen, openpyxl) are outside the property's wording",
 ]
 TRUSTED_EXTRA = ["translators/skeleton.py (Python ast -> IOSkel IR, fail-closed)",
-                 "the open()/file-object proxy of harness/props/c20.py (fault injection and open/closed bookkeeping)"]
+                 "the open()/io.FileIO proxies, the audit hook and the /proc/self/fd comparison of harness/props/c20.py "
+                 "(fault injection and open/closed bookkeeping)"]
 
 REPO = lib.REPO
 LASIO_DIR = os.path.join(os.path.realpath(REPO), "lasio") + os.sep
@@ -354,14 +387,14 @@ class patched_open(object):
     def __enter__(self):
         _install_hook()
         builtins.open = _spy_open
-        io.open = _spy_open
-        io.FileIO = SpyFileIO
+        io.open = _io.open = _spy_open
+        io.FileIO = _io.FileIO = SpyFileIO
         return self
 
     def __exit__(self, *exc):
         builtins.open = _REAL_OPEN
-        io.open = _REAL_IO_OPEN
-        io.FileIO = _REAL_FILEIO
+        io.open = _io.open = _REAL_IO_OPEN
+        io.FileIO = _io.FileIO = _REAL_FILEIO
         return False
 
 
@@ -579,6 +612,10 @@ EXTRA_SCENARIOS = [
     ("to_csv(path)", "to_csv", "x_to_csv_nounits", _csv("plain", units=False, mnemonics=False)),
 ]
 SC_BY_NAME = {s[2]: s for s in SCENARIOS + EXTRA_SCENARIOS}
+# skel_convert_version renders `lasio.read(..)` and `las.write(f, ..)` as MayRaise (calls of functions proved leak-free
+# on their own): the events / handles of those calls are checked against skel_read / skel_write in their own
+# scenarios, and only the events at convert_version's own open site are checked against skel_convert_version
+OWN_FILE = {"convert_version": "lasio/convert_version.py"}
 
 
 # ---------------------------------------------------------------------------------------
@@ -846,10 +883,16 @@ def enumerate_all(d, ctx, res, scenarios=None):
             for site, pth in o.raw_opens:
                 stats["uninstrumented"].setdefault(site, (name, k, repr(pth)[:80]))
                 stats["exhaustive"] = False
-            leaked_h = tuple(sorted(o.leaked_sites))
+            # model side of a function whose skeleton renders calls of other API functions as MayRaise
+            # (convert_version): only the handles of its own open sites are its skeleton's business; a leak inside
+            # the lasio.read(..) it calls is an oracle violation here and a model-side case of the read scenarios
+            mine = [s_ for s_ in o.leaked_sites if fn not in OWN_FILE or s_[0] == OWN_FILE[fn]]
+            leaked_h = tuple(sorted(mine))
             stats["observed"].add((fn, "raise" if o.exc else "return", leaked_h))
-            stats["traces"].setdefault((fn, "raise" if o.exc else "return", tuple(o.events), bool(o.leaked)), (name, k))
-            if o.leaked or o.raw_leaked:
+            own_events = tuple(e for e in o.events
+                               if fn not in OWN_FILE or (e[1] != "caller" and e[1][0] == OWN_FILE[fn]))
+            stats["traces"].setdefault((fn, "raise" if o.exc else "return", own_events, bool(mine)), (name, k))
+            if mine or (o.raw_leaked and fn not in OWN_FILE):
                 stats["leaks"].setdefault(fn, []).append((name, k))
             if o.caller_closed:
                 stats["caller_closed"].setdefault(fn, []).append((name, k))
@@ -940,10 +983,6 @@ def run(ctx):
     for (fn, ex, evs, leaked), (name, k) in sorted(stats["traces"].items(), key=lambda kv: (kv[1], kv[0][1])):
         toks = []
         for kind_, site in evs:
-            if fn == "convert_version" and (site == "caller" or site[0] != "lasio/convert_version.py"):
-                # skel_convert_version renders `lasio.read(..)` and `las.write(f, ..)` as MayRaise (calls of functions
-                # proved leak-free on their own): their events are checked in the read / write scenarios
-                continue
             h = caller_hid.get(fn, var_hid.get((fn, "file_ref"))) if site == "caller" else site_table.get(site)
             toks.append("%s%s" % (kind_, 999 if h is None else h))
         add(lib.fields("trace", fn, ex, ",".join(toks)), "T" + ("F" if leaked else "T"),
